@@ -14,13 +14,13 @@ import (
 )
 
 type Verdict struct {
-	Obl     *Obligation
-	Status  string // discharged, failed, unknown, error, covered, vacuous
-	Solver  string
-	Ms      int64
-	Model   string
-	File    string
-	Detail  string
+	Obl    *Obligation
+	Status string // discharged, failed, unknown, error, covered, vacuous
+	Solver string
+	Ms     int64
+	Model  string
+	File   string
+	Detail string
 }
 
 type solverSpec struct {
